@@ -620,6 +620,117 @@ fn op_lsp_pos(req: &J) -> J {
     J::Object(res)
 }
 
+thread_local! {
+    static INTERRUPT_AT: std::cell::RefCell<Vec<usize>> = const { std::cell::RefCell::new(vec![]) };
+}
+
+/// Should the evaluator behave as if the user pressed Ctrl-C when
+/// `ticks` is reached? Consulted by the eval loop (cfg-gated).
+pub(crate) fn interrupt_at_tick(ticks: usize) -> bool {
+    INTERRUPT_AT.with(|v| v.borrow().contains(&ticks))
+}
+
+fn frames_json(env: &crate::env::Env) -> J {
+    let frames: Vec<J> = env
+        .stack
+        .0
+        .iter()
+        .map(|f| {
+            json!({
+                "values": f.evalled_values.len(),
+                "blocks": f.bindings.block_bindings.len(),
+                "todo": f.exprs_to_eval.len(),
+                "next": f.bindings_next_block.len(),
+            })
+        })
+        .collect();
+    J::Array(frames)
+}
+
+/// Run a whole program in process, capturing stdout/stderr, then
+/// resume `resume` times after an error (or until it finishes).
+fn op_run(req: &J) -> J {
+    use crate::eval::{eval, eval_toplevel_items, EvalError, Session, StdoutStderrMode};
+    use std::sync::atomic::AtomicBool;
+    use std::sync::{Arc, Mutex};
+
+    let src = req["src"].as_str().unwrap_or("");
+    let resume = req["resume"].as_u64().unwrap_or(0);
+    let interrupt_at: Vec<usize> = req["interrupt_at"]
+        .as_array()
+        .map(|a| a.iter().filter_map(|x| x.as_u64()).map(|x| x as usize).collect())
+        .unwrap_or_default();
+    INTERRUPT_AT.with(|v| *v.borrow_mut() = interrupt_at);
+
+    let mut id_gen = IdGenerator::default();
+    let (vfs, vfs_path) = Vfs::singleton(PathBuf::from("/verif.gdn"), src.to_owned());
+    let (items, errors) = parse_toplevel_items(&vfs_path, src, &mut id_gen);
+    if !errors.is_empty() {
+        return json!({"parse_errors": errors.iter().map(err_json).collect::<Vec<_>>()});
+    }
+
+    let mut env = crate::env::Env::new(id_gen, vfs);
+    let ns = env.get_or_create_namespace(std::path::Path::new("/verif.gdn"));
+    env.current_frame_mut().namespace = ns;
+    if let Some(n) = req["tick_limit"].as_u64() {
+        env.tick_limit = Some(n as usize);
+    }
+    if let Some(n) = req["stack_limit"].as_u64() {
+        env.stack_limit = Some(n as usize);
+    }
+    env.enforce_sandbox = req["sandbox"].as_bool().unwrap_or(false);
+
+    let stdout_buf = Arc::new(Mutex::new(String::new()));
+    let stderr_buf = Arc::new(Mutex::new(String::new()));
+    let session = Session {
+        interrupted: Arc::new(AtomicBool::new(false)),
+        stdout_stderr_mode: StdoutStderrMode::WriteToNReplBuffers {
+            stdout_buf: Arc::clone(&stdout_buf),
+            stderr_buf: Arc::clone(&stderr_buf),
+        },
+        start_time: std::time::Instant::now(),
+        trace_exprs: false,
+        pretty_print_json: false,
+    };
+
+    let describe = |r: Result<Option<crate::values::Value>, EvalError>, env: &crate::env::Env| -> J {
+        match r {
+            Ok(v) => json!({"kind": "ok", "value": v.map(|v| v.display(env))}),
+            Err(EvalError::Exception(info)) => {
+                json!({"kind": "exception", "pos": pos_json(&info.position), "message": info.message.as_string()})
+            }
+            Err(EvalError::AssertionFailed(p, m)) => {
+                json!({"kind": "assertion", "pos": pos_json(&p), "message": m.as_string()})
+            }
+            Err(EvalError::Interrupted) => json!({"kind": "interrupted"}),
+            Err(EvalError::ReachedTickLimit(p)) => json!({"kind": "tick_limit", "pos": pos_json(&p)}),
+            Err(EvalError::ReachedStackLimit(p)) => json!({"kind": "stack_limit", "pos": pos_json(&p)}),
+            Err(EvalError::ForbiddenInSandbox(p)) => json!({"kind": "sandbox", "pos": pos_json(&p)}),
+        }
+    };
+
+    let mut outcomes = vec![];
+    let mut frames = vec![];
+    let first = eval_toplevel_items(&vfs_path, &items, &mut env, &session)
+        .map(|summary| summary.values.last().cloned());
+    let mut failed = first.is_err();
+    outcomes.push(describe(first, &env));
+    frames.push(frames_json(&env));
+    let mut n = 0;
+    while failed && n < resume {
+        let r = eval(&mut env, &session).map(Some);
+        failed = r.is_err();
+        outcomes.push(describe(r, &env));
+        frames.push(frames_json(&env));
+        n += 1;
+    }
+    INTERRUPT_AT.with(|v| v.borrow_mut().clear());
+
+    let out = stdout_buf.lock().unwrap().clone();
+    let err = stderr_buf.lock().unwrap().clone();
+    json!({"outcomes": outcomes, "frames": frames, "stdout": out, "stderr": err, "ticks": env.ticks})
+}
+
 fn dispatch(req: &J) -> J {
     match req["op"].as_str().unwrap_or("") {
         "lex" => op_lex(req),
@@ -629,6 +740,7 @@ fn dispatch(req: &J) -> J {
         "unify" => op_unify(req),
         "unify_all" => op_unify_all(req),
         "lsp_pos" => op_lsp_pos(req),
+        "run" => op_run(req),
         other => json!({"unsupported": other}),
     }
 }
